@@ -186,7 +186,10 @@ public:
             return r;
         }
         Handle subscribe_lk(Handle h, const subscriber<T> *sub) {
-            auto r = subscribe_lk(sub, _regs[h]._pos);
+            //a subscriber parked in next() has its position already moved to the item
+            //it is waiting for; the copy has not received that item either
+            const subreg_t &src = _regs[h];
+            auto r = subscribe_lk(sub, src._awt?src._pos-1:src._pos);
             return r;
         }
 
